@@ -233,6 +233,8 @@ func init() {
 	E["strings.Index"] = func(fr *frame, args []value) value {
 		return indexStr(fr, strElems(args[0]), strElems(args[1]))
 	}
+	E["internal/stringslite.Clone"] = func(fr *frame, args []value) value { return args[0] }
+	E["strings.Clone"] = E["internal/stringslite.Clone"]
 	E["strings.Count"] = func(fr *frame, args []value) value {
 		a, aok := args[0].(string)
 		b, bok := args[1].(string)
